@@ -79,6 +79,105 @@ def content_effect_numpy(paths):
     return out
 
 
+def aggregated_delivery_needs_identity(repo, rep, prims):
+    """R3.13: a fast path that hands a child the AGGREGATED weight of several rows - it adds a histogram count to `child.entries`, or
+    calls `child._numpy(None, count, [None])` - is only the same as filling row by row when the child is a Count whose transform is the
+    identity (transform(sum w) != sum transform(w) in general).  Every such site must be controlled by a test of `transform is identity`."""
+    from .. import cfg as cfgmod
+
+    r13 = rep.rule("R3.13", "fast paths that deliver an aggregated weight to Count children are guarded by `transform is identity`", floor=3)
+    for c in prims:
+        f = c.methods.get("_numpy")
+        if f is None or c.name == "Count":
+            continue
+        sn = f.params[0]
+        g = cfgmod.build(f.node)
+        tcd = g.transitive_control_deps()
+        for nd in g.nodes:
+            if nd.kind != "stmt" or nd.ast is None:
+                continue
+            sites = []
+            st = nd.ast
+            if isinstance(st, (ast.AugAssign, ast.Assign)):
+                for t in (st.targets if isinstance(st, ast.Assign) else [st.target]):
+                    if isinstance(t, ast.Attribute) and t.attr == "entries" and not (isinstance(t.value, ast.Name) and t.value.id == sn):
+                        sites.append((t, f"`{ast.unparse(t)[:40]}` is written directly"))
+            for x in ast.walk(st):
+                if isinstance(x, ast.Call) and isinstance(x.func, ast.Attribute) and x.func.attr in ("_numpy", "fill") and x.args and isinstance(x.args[0], ast.Constant) and x.args[0].value is None:
+                    sites.append((x, f"`{ast.unparse(x)[:50]}` hands the child one aggregated weight"))
+            for site, what in sites:
+                ctl = [g.nodes[x[0]] for x in tcd.get(nd.id, set())]
+                ok = any(t.ast is not None and any(isinstance(y, ast.Compare) and len(y.ops) == 1 and isinstance(y.ops[0], ast.Is) and isinstance(y.left, ast.Attribute)
+                                                   and y.left.attr == "transform" and "identity" in ast.unparse(y.comparators[0]) for y in ast.walk(t.ast)) for t in ctl)
+                rep.analysed_functions.add(f.construct)
+                r13.ob(ok, f"{c.name}._numpy line {nd.lineno}: aggregated delivery under `transform is identity`")
+                if not ok:
+                    rep.finding("R3.13", f, site, f"{what} on a fast path that is not guarded by `<child>.transform is identity`: for a Count with another transform the "
+                                f"child receives transform(sum of the weights) where filling row by row adds the sum of transform(weight) - the bin contents differ "
+                                f"as soon as two rows of one batch share a bin", stmt=f"aggregated weight delivered without the identity guard: {ast.unparse(site)[:40]}")
+
+
+def transformed_rows_masked(repo, rep):
+    """R3.14: Count.fill applies the transform only to a weight > 0.  Every container masks the rows that are not for a bin by setting
+    their weight to 0, so Count._numpy sees zeros for the rows of the other bins: a transform with transform(0) != 0 must not be
+    summed over them.  Accepted idioms in the weight-array branch: the transform is applied to `w[w > 0]`, or its result is masked
+    (`t[w > 0]`, `numpy.where(w > 0, t, 0)`) before it is summed."""
+    r14 = rep.rule("R3.14", "Count._numpy applies a non-identity transform only to rows whose weight is > 0 (as fill does)", floor=1)
+    c = repo.cls("Count")
+    f = repo.own_method(c, "_numpy")
+    sn = f.params[0]
+    wp = f.params[2]
+
+    def pos_mask(e):
+        return isinstance(e, ast.Compare) and len(e.ops) == 1 and ((isinstance(e.ops[0], ast.Gt) and isinstance(e.left, ast.Name) and e.left.id == wp
+                                                                     and isinstance(e.comparators[0], ast.Constant) and e.comparators[0].value == 0)
+                                                                    or (isinstance(e.ops[0], ast.Lt) and isinstance(e.comparators[0], ast.Name) and e.comparators[0].id == wp
+                                                                        and isinstance(e.left, ast.Constant) and e.left.value == 0))
+
+    masked_names = set()
+    for n in walk_local_stmt(f.node):
+        if isinstance(n, ast.Assign) and len(n.targets) == 1 and isinstance(n.targets[0], ast.Name):
+            v = n.value
+            if isinstance(v, ast.Subscript) and isinstance(v.value, ast.Name) and v.value.id == wp and pos_mask(v.slice):
+                masked_names.add(n.targets[0].id)
+    for n in walk_local_stmt(f.node):
+        if isinstance(n, ast.Call) and isinstance(n.func, ast.Attribute) and n.func.attr == "transform" and isinstance(n.func.value, ast.Name) and n.func.value.id == sn and n.args:
+            a0 = n.args[0]
+            if not (isinstance(a0, ast.Name) and a0.id == wp or (isinstance(a0, ast.Subscript) and isinstance(a0.value, ast.Name) and a0.value.id == wp) or (
+                    isinstance(a0, ast.Name) and a0.id in masked_names)):
+                continue            # a scalar weight wrapped in an array etc.: the scalar branches are R3.7's
+            ok = (isinstance(a0, ast.Subscript) and pos_mask(a0.slice)) or (isinstance(a0, ast.Name) and a0.id in masked_names)
+            if not ok and isinstance(a0, ast.Name) and a0.id == wp:
+                # is this the weight-ARRAY branch?  (the scalar branches also call transform(weights))
+                pm = {}
+                for x in ast.walk(f.node):
+                    for ch in ast.iter_child_nodes(x):
+                        pm[ch] = x
+                cur, in_array = n, False
+                while cur in pm:
+                    par = pm[cur]
+                    if isinstance(par, ast.If) and "ndarray" in ast.unparse(par.test) and any(cur is y or any(cur is z for z in ast.walk(y)) for y in par.body):
+                        in_array = True
+                    cur = par
+                if not in_array:
+                    continue
+                # result masked before summing?
+                tgt = pm.get(n)
+                res = tgt.targets[0].id if isinstance(tgt, ast.Assign) and len(tgt.targets) == 1 and isinstance(tgt.targets[0], ast.Name) else None
+                if res:
+                    for x in walk_local_stmt(f.node):
+                        if isinstance(x, ast.Subscript) and isinstance(x.value, ast.Name) and x.value.id == res and pos_mask(x.slice):
+                            ok = True
+                        if isinstance(x, ast.Call) and isinstance(x.func, ast.Attribute) and x.func.attr == "where" and len(x.args) == 3 and pos_mask(x.args[0]) \
+                                and isinstance(x.args[1], ast.Name) and x.args[1].id == res:
+                            ok = True
+            r14.ob(ok, f"Count._numpy: `{ast.unparse(n)[:50]}` sees only rows with weight > 0")
+            if not ok:
+                rep.finding("R3.14", f, n, f"`{ast.unparse(n)[:60]}` transforms every row of the weight array, the rows with weight 0 included: containers mask the rows of "
+                            f"other bins by zeroing their weight, and fill() skips a weight that is not > 0, so for a transform with transform(0) != 0 each bin's "
+                            f"Count grows by transform(0) for every row of the batch that is NOT in the bin", stmt="transform applied to zero-weight rows")
+
+
 def run(repo, rep, tier):
     rep.extra["explanation"] = (
         "Row-wise abstract interpretation of all 19 _numpy bodies (one generic row: order-type region of q[i] x class of "
@@ -213,6 +312,8 @@ def count_multiplicity(repo, rep):
     """R3.7: Count._numpy adds, per batch, what fill adds per row times the number of rows: a weight array is summed; a scalar
     weight with a known batch length is multiplied by that length (on the identity AND on the transform path); only an
     isolated Count with a scalar weight and no length counts the weight once."""
+    aggregated_delivery_needs_identity(repo, rep, primitives(repo)[0])
+    transformed_rows_masked(repo, rep)
     r7 = rep.rule("R3.7", "Count._numpy: the batch increment is (per-row increment) x (number of rows) on every branch", floor=8)
     c = repo.cls("Count")
     npf = repo.own_method(c, "_numpy")
